@@ -62,6 +62,24 @@ pub fn c01h_vec_u8_encode_16384() {
 	core::mem::forget(v);
 }
 
+/// C07 / C20: the owned-vector entry point at real scale: one write of 20000 bytes (> 16 KiB and not a multiple of it)
+/// into a `Vec<u8>` sink -- `Output for Vec<u8>` in no-std builds, the `io::Write` blanket impl in std builds
+fn encode_owned_20000() {
+	const N: usize = 20000;
+	let bytes: [u8; N] = kani::any();
+	let v: Vec<u8> = bytes.to_vec();
+	let e = v.encode();
+	assert!(e.len() == N + 4, "encode() of a 20000-byte vector lost or added bytes");
+	assert!(e[0] == 0x82 && e[1] == 0x38 && e[2] == 0x01 && e[3] == 0x00, "count prefix of 20000 elements is wrong");
+	let i: usize = kani::any();
+	kani::assume(i < N);
+	assert!(e[4 + i] == bytes[i], "encode() of a 20000-byte vector changed a byte");
+	assert!(v.encoded_size() == N + 4);
+	core::mem::forget((v, e));
+}
+#[cfg(feature = "c07")] #[kani::proof] #[kani::unwind(4)] pub fn c07h_encode_owned_20000() { encode_owned_20000() }
+#[cfg(feature = "c20")] #[kani::proof] #[kani::unwind(4)] pub fn c20h_encode_owned_20000() { encode_owned_20000() }
+
 /// C02 element path across chunk reservations without a source hook: element size 8192 => chunk_len 2
 pub struct Pad8191(pub [u8; 8191]);
 impl Default for Pad8191 { fn default() -> Self { Pad8191([0; 8191]) } }
